@@ -203,6 +203,14 @@ impl RunCfg {
                 cfg.big_burst = ch.coin(1, 3);
                 // retained replays take window slots too
                 cfg.retained = ch.coin(1, 3);
+                // "an acknowledgement the broker did not solicit closes that connection
+                // only": in a third of the runs one or two further clients misbehave
+                if ch.coin(1, 3) {
+                    cfg.rogue = true;
+                    cfg.good_clients = cfg.n_clients;
+                    cfg.n_clients += ch.range(1, 2) as usize;
+                    cfg.max_connections = cfg.max_connections.max(cfg.n_clients + 1);
+                }
                 if cfg.sub_qos_mix[1] + cfg.sub_qos_mix[2] == 0 {
                     cfg.sub_qos_mix[1] = 2;
                 }
@@ -763,7 +771,14 @@ impl World {
         let mut will = None;
         if self.clients[c].has_will {
             let topic = self.cfg.topics[self.ch.pick(self.cfg.topics.len() as u32) as usize];
-            let payload = format!("w{}", self.next_seq).into_bytes();
+            // (a will may have an empty payload: with the retain flag it clears the
+            // retained message of its topic like any other retained empty publish;
+            // decided by the sequence number, not by a further choice)
+            let payload = if self.cfg.empty_payload && self.next_seq % 4 == 3 {
+                Vec::new()
+            } else {
+                format!("w{}", self.next_seq).into_bytes()
+            };
             self.next_seq += 1;
             let qos = self.ch.pick(3) as u8;
             let retain = self.cfg.retained && self.ch.coin(1, 3);
